@@ -31,8 +31,43 @@ func c19ProbeFn(name string) pongo2.FilterFunction {
 
 var c19Builtins []string
 
+// A third-party tag that takes one expression (parsed with the public Parser.ParseExpression) and renders it - through
+// the evaluator's Execute (mode 0) or through Evaluate + String (mode 1). Filters written in its argument apply like
+// anywhere else.
+type c19EmitNode struct {
+	expr pongo2.IEvaluator
+	mode int
+}
+
+func (n *c19EmitNode) Execute(ctx *pongo2.ExecutionContext, w pongo2.TemplateWriter) *pongo2.Error {
+	if n.mode == 0 {
+		return n.expr.Execute(ctx, w)
+	}
+	v, err := n.expr.Evaluate(ctx)
+	if err != nil {
+		return err
+	}
+	w.WriteString(v.String())
+	return nil
+}
+
+func c19EmitParser(mode int) pongo2.TagParser {
+	return func(doc *pongo2.Parser, start *pongo2.Token, arguments *pongo2.Parser) (pongo2.INodeTag, *pongo2.Error) {
+		expr, err := arguments.ParseExpression()
+		if err != nil {
+			return nil, err
+		}
+		if arguments.Remaining() > 0 {
+			return nil, arguments.Error("vprobe_emit takes one expression", nil)
+		}
+		return &c19EmitNode{expr: expr, mode: mode}, nil
+	}
+}
+
 func c19Init() {
 	c01Init()
+	pongo2.RegisterTag("vprobe_emit", c19EmitParser(0))
+	pongo2.RegisterTag("vprobe_eval", c19EmitParser(1))
 	for _, p := range c19Probes {
 		if !pongo2.FilterExists(p) {
 			pongo2.RegisterFilter(p, c19ProbeFn(p))
@@ -250,6 +285,8 @@ var c19Positions = []c19Position{
 		return map[string]string{"/main.tpl": "{{ [\"z\", " + e + "]|last }}"}
 	}, c19Print, false},
 	{"subscript", func(e string) map[string]string { return map[string]string{"/main.tpl": "{{ mp[" + e + "] }}"} }, nil, false},
+	{"custom-tag-argument-Execute", func(e string) map[string]string { return map[string]string{"/main.tpl": "{% vprobe_emit " + e + " %}"} }, c19Print, false},
+	{"custom-tag-argument-Evaluate", func(e string) map[string]string { return map[string]string{"/main.tpl": "{% vprobe_eval " + e + " %}"} }, c19Print, false},
 }
 
 func c19RunChain(c *C, ch c19Chain, pos c19Position, probesOnly bool) bool {
@@ -418,6 +455,48 @@ func c19Fixed(c *C) {
 	if err := pongo2.ReplaceTag("vprobe_missing_tag", nil); err == nil {
 		c.Fail("replace-of-missing-accepted", D{"what": "ReplaceTag"})
 		return
+	}
+	// Which function a compiled template applies under a name after pongo2.ReplaceFilter is not stated by the property
+	// (the engine binds {{ x|f }} when it compiles and looks the filter tag's names up at every execution; both are
+	// accepted). What IS required: it does not depend on whether, or under which registration, the compiled template was
+	// executed BEFORE - two compiles of one source made under the same registration behave alike ever after.
+	mkSwap := func(ver string) pongo2.FilterFunction {
+		return func(in, p *pongo2.Value) (*pongo2.Value, *pongo2.Error) {
+			return pongo2.AsValue(ver + "(" + in.String() + ":" + p.String() + ")"), nil
+		}
+	}
+	if !pongo2.FilterExists("vprobe_swap") {
+		pongo2.RegisterFilter("vprobe_swap", mkSwap("v1"))
+	} else {
+		pongo2.ReplaceFilter("vprobe_swap", mkSwap("v1"))
+	}
+	const swapSrc = "{% autoescape off %}{% filter vprobe_swap:\"p\" %}body{% endfilter %}|{{ \"x\"|vprobe_swap:\"q\" }}|{% filter upper|vprobe_swap:sv|lower %}B{% endfilter %}|{% if flag %}{% filter vprobe_swap:1 %}late{% endfilter %}{{ 1|vprobe_swap:2 }}{% endif %}{% for i in lv %}{% filter vprobe_swap:i %}{{ i }}{% endfilter %}{% endfor %}{% endautoescape %}"
+	sset, _ := newSet(emptySetFiles)
+	used, e1 := sset.FromString(swapSrc)
+	fresh, e2 := sset.FromString(swapSrc)
+	if e1 == nil && e2 == nil {
+		sctx := c19Ctx()
+		sctx["flag"] = false
+		used.Execute(sctx) // executed under v1, the branch under `if flag` not reached
+		for step, ver := range []string{"v2", "v2", "v3", "v1"} {
+			if err := pongo2.ReplaceFilter("vprobe_swap", mkSwap(ver)); err != nil {
+				c.Fail("replace-of-missing-accepted", D{"what": "ReplaceFilter(vprobe_swap) refused: " + err.Error()})
+				return
+			}
+			sctx["flag"] = step >= 1
+			outUsed, xerr1 := execSpread(used, sctx, uint64(step))
+			if step == 0 || step == 2 {
+				// the second compile is executed for the first time only now / only every other time
+				outFresh, xerr2 := execSpread(fresh, sctx, uint64(step))
+				c.Eval(2)
+				if (xerr1 == nil) != (xerr2 == nil) || outUsed != outFresh {
+					c.Fail("filter-tag-differs-from-chain", D{"source": swapSrc, "registered_now": ver, "step": step, "output_of_the_compile_executed_at_every_step": q(outUsed), "output_of_the_compile_executed_now": q(outFresh), "error": errStr(xerr1) + errStr(xerr2),
+						"why": "two compiles of one source, made under the same registration (v1); vprobe_swap was replaced by v2, v2, v3, v1 in turn: what a compiled template applies must not depend on when it was executed before"})
+					return
+				}
+			}
+		}
+		c.Cover("replace_filter_between_executions_of_a_compiled_template")
 	}
 	c.Cover("fixed_precedence_scope_registry")
 }
